@@ -74,8 +74,13 @@ def cases(tier, base_seed):
                           "reverse": rng.choice((0, 0, 0, 1, 2, 3))})   # bit0: x ends, bit1: y ends
         rewrite = {"mod": rng.choice((2, 3)), "rem": rng.randint(0, 1)} \
             if rng.random() < 0.35 else None
+        sim = e1.gen_sim_cfg(rng)
+        if writes[0]["writer"] == "pack" and rng.random() < 0.4:
+            # concurrent concat tasks of the pack writer under line-level pre-emption
+            sim.update({"fine": True, "workers": rng.choice((2, 4, 8)),
+                        "strategy": rng.choice(("random", "pct"))})
         yield {"seed": seed, "frame": spec, "writes": writes, "reads": reads, "rewrite": rewrite,
-               "sim": e1.gen_sim_cfg(rng), "store": e1.gen_store_cfg(rng)}
+               "sim": sim, "store": e1.gen_store_cfg(rng)}
         i += 1
 
 
